@@ -75,6 +75,8 @@ def render_job(job) -> Tuple[List[Dict[str, Any]], List[Dict[str, Any]]]:
             bid_ = rand_name(r)
             if boards and r.random() < 0.15:
                 bid_ = boards[r.randrange(len(boards))]['id']     # two boards with the same id
+            elif r.random() < 0.06:
+                bid_ = r.choice(['#', '##', '# ', '-', '?', '#7'])   # signs other PBN tools give a meaning to
             boards.append({'deal': dl, 'dealer': dealer, 'vul': v, 'id': bid_, 'first': first})
             symmap[f'Board{g}'] = bid_
             symmap[f'Deal{g}'] = make_hands(dl).to_pbn(Player(first + 1))
